@@ -153,7 +153,7 @@ pub fn judge(ctx: &mut Ctx, site: &str, config: &str, w: &World, plog: &Arc<Mute
 
 fn single_grid(ctx: &mut Ctx, tier: Tier) {
     for &m in ALL.iter() {
-        let modes: Vec<Mode> = if m.can_multiply() { vec![Mode::Plain, Mode::Multiply] } else { vec![Mode::Plain] };
+        let modes: Vec<Mode> = if m.can_multiply() { vec![Mode::Plain, Mode::Multiply, Mode::Extreme] } else { vec![Mode::Plain, Mode::Extreme] };
         for mode in modes {
             for kind in [Kind::Strict, Kind::Buffer, Kind::ConcurrencyLimit] {
                 for readiness in [Readiness::Ready, Readiness::PendingTwice, Readiness::ErrorOnSecond] {
@@ -177,7 +177,7 @@ fn single_grid(ctx: &mut Ctx, tier: Tier) {
                                 g.ready_script.clear();
                                 let final_out = if outs[i] { Out::Ok } else { Out::Err(0) };
                                 match mode {
-                                    Mode::Plain => g.script.push_back(Plan::now(final_out)),
+                                    Mode::Plain | Mode::Extreme => g.script.push_back(Plan::now(final_out)),
                                     Mode::Multiply => {
                                         // first attempt fails, a further attempt decides
                                         g.script.push_back(Plan::now(Out::Err(0)));
@@ -210,6 +210,7 @@ fn single_grid(ctx: &mut Ctx, tier: Tier) {
                         let config = format!("{} mode={:?} inner={:?} readiness={:?} outcomes={:?}", m.name(), mode, kind, readiness, outs);
                         let site = match mode {
                             Mode::Plain => format!("{}::call", m.name()),
+                            Mode::Extreme => format!("{}::extreme_configuration", m.name()),
                             Mode::Multiply => format!("{}::further_attempts", m.name()),
                         };
                         judge(ctx, &site, &config, &w, &plog, &reqs, &seen, mode == Mode::Multiply, if readiness == Readiness::ErrorOnSecond { Some(1) } else { None });
